@@ -130,3 +130,52 @@ package autodiff
 //@   loop 3 invariant forall b int, k int :: b < old(alloc) && !old(owns_$R(c, b)) ==> row($F, b)[k] == old(row($F, b)[k])
 //@   loop 3 decreases c.N - i
 //@ end
+
+// ---------------------------------------------------------------------------
+// chain rule, two arguments
+
+//@ spec L2D(a ConstScalar, b ConstScalar, v10 real, v01 real, i int) real = D(a, i) * v10 + D(b, i) * v01
+//@ spec L2H(a ConstScalar, b ConstScalar, v10 real, v01 real, v11 real, v20 real, v02 real, i int, j int) real =
+//@   H(a, i, j) * v10 + H(b, i, j) * v01 + D(a, i) * D(a, j) * v20 + D(b, i) * D(b, j) * v02 + D(a, i) * D(b, j) * v11 + D(b, i) * D(a, j) * v11
+//@ spec constNoVars(a ConstScalar) bool = order(a) == 0 ==> nvars(a) == 0
+
+//@ for $R,$F in (Real64,float64)
+//@ spec lift2_post_$R(c *$R, a ConstScalar, b ConstScalar, v0 real, v10 real, v01 real, v11 real, v20 real, v02 real) bool =
+//@   RI_$R(c) && c.Value == v0 && c.Order == old(max(order(a), order(b))) && c.N == old(max(nvars(a), nvars(b))) &&
+//@   (c.Order >= 1 ==> (forall i int :: 0 <= i && i < c.N ==> c.Derivative[i] == old(L2D(a, b, v10, v01, i)))) &&
+//@   (c.Order >= 2 ==> (forall i int, j int :: 0 <= i && i <= j && j < c.N ==>
+//@        c.Hessian[i][j] == old(L2H(a, b, v10, v01, v11, v20, v02, i, j)) && c.Hessian[j][i] == old(L2H(a, b, v10, v01, v11, v20, v02, i, j))))
+// the receiver may be an operand as long as it does not have to be re-allocated (see known_findings: mixed-order aliasing)
+//@ spec noRealloc_$R(c *$R, a ConstScalar, b ConstScalar) bool =
+//@   (is(*$R, a) && a.(*$R) == c) || (is(*$R, b) && b.(*$R) == c) ==> c.N == max(nvars(a), nvars(b)) && c.Order == max(order(a), order(b))
+
+//@ func (*$R).dyadic [also: (*$R).realDyadic]
+//@   model acmul
+//@   requires RI_$R(c) && RIc(a) && RIc(b) && sep_$R(c, a) && sep_$R(c, b) && constNoVars(a) && constNoVars(b) && noRealloc_$R(c, a, b)
+//@   panics_when order(a) >= 1 && order(b) >= 1 && nvars(a) != nvars(b)
+//@   ensures isa(*$R, result) && as(*$R, result) == c
+//@   ensures lift2_post_$R(c, a, b, v0, v10, v01, v11, v20, v02)
+//@   modifies $R.Value@{c}, $R.N@{c}, $R.Order@{c}, $R.Derivative@{c}, $R.Hessian@{c}, []$F@{q :: owns_$R(c, q)}
+//@   loop 1 invariant 0 <= i && i <= c.N && c.Order >= 2 && RI_$R(c) && c.N == old(max(nvars(a), nvars(b))) && c.Order == old(max(order(a), order(b)))
+//@   loop 1 invariant order(a) == old(order(a)) && nvars(a) == old(nvars(a)) && order(b) == old(order(b)) && nvars(b) == old(nvars(b))
+//@   loop 1 invariant forall k int :: 0 <= k && k < c.N ==> D(a, k) == old(D(a, k)) && D(b, k) == old(D(b, k))
+//@   loop 1 invariant forall p int, q int :: 0 <= p && p < i && p <= q && q < c.N ==> c.Hessian[p][q] == old(L2H(a, b, v10, v01, v11, v20, v02, p, q)) && c.Hessian[q][p] == old(L2H(a, b, v10, v01, v11, v20, v02, p, q))
+//@   loop 1 invariant forall p int, q int :: i <= p && p <= q && q < c.N ==> H(a, p, q) == old(H(a, p, q)) && H(b, p, q) == old(H(b, p, q))
+//@   loop 1 invariant forall r int, k int :: r < old(alloc) && !old(owns_$R(c, r)) ==> row($F, r)[k] == old(row($F, r)[k])
+//@   loop 1 decreases c.N - i
+//@   loop 2 invariant 0 <= i && i < c.N && i <= j && j <= c.N && c.Order >= 2 && RI_$R(c) && c.N == old(max(nvars(a), nvars(b))) && c.Order == old(max(order(a), order(b)))
+//@   loop 2 invariant order(a) == old(order(a)) && nvars(a) == old(nvars(a)) && order(b) == old(order(b)) && nvars(b) == old(nvars(b))
+//@   loop 2 invariant forall k int :: 0 <= k && k < c.N ==> D(a, k) == old(D(a, k)) && D(b, k) == old(D(b, k))
+//@   loop 2 invariant forall p int, q int :: 0 <= p && p < i && p <= q && q < c.N ==> c.Hessian[p][q] == old(L2H(a, b, v10, v01, v11, v20, v02, p, q)) && c.Hessian[q][p] == old(L2H(a, b, v10, v01, v11, v20, v02, p, q))
+//@   loop 2 invariant forall q int :: i <= q && q < j ==> c.Hessian[i][q] == old(L2H(a, b, v10, v01, v11, v20, v02, i, q)) && c.Hessian[q][i] == old(L2H(a, b, v10, v01, v11, v20, v02, i, q))
+//@   loop 2 invariant forall p int, q int :: i <= p && p <= q && q < c.N && !(p == i && q < j) ==> H(a, p, q) == old(H(a, p, q)) && H(b, p, q) == old(H(b, p, q))
+//@   loop 2 invariant forall r int, k int :: r < old(alloc) && !old(owns_$R(c, r)) ==> row($F, r)[k] == old(row($F, r)[k])
+//@   loop 2 decreases c.N - j
+//@   loop 3 invariant 0 <= i && i <= c.N && c.Order >= 1 && RI_$R(c) && c.N == old(max(nvars(a), nvars(b))) && c.Order == old(max(order(a), order(b)))
+//@   loop 3 invariant order(a) == old(order(a)) && nvars(a) == old(nvars(a)) && order(b) == old(order(b)) && nvars(b) == old(nvars(b))
+//@   loop 3 invariant forall k int :: i <= k && k < c.N ==> D(a, k) == old(D(a, k)) && D(b, k) == old(D(b, k))
+//@   loop 3 invariant forall k int :: 0 <= k && k < i ==> c.Derivative[k] == old(L2D(a, b, v10, v01, k))
+//@   loop 3 invariant c.Order >= 2 ==> (forall p int, q int :: 0 <= p && p <= q && q < c.N ==> c.Hessian[p][q] == old(L2H(a, b, v10, v01, v11, v20, v02, p, q)) && c.Hessian[q][p] == old(L2H(a, b, v10, v01, v11, v20, v02, p, q)))
+//@   loop 3 invariant forall r int, k int :: r < old(alloc) && !old(owns_$R(c, r)) ==> row($F, r)[k] == old(row($F, r)[k])
+//@   loop 3 decreases c.N - i
+//@ end
